@@ -35,6 +35,9 @@ type Dir struct {
 	Name string
 	buf  []byte
 	Cap  int // capacity; writer blocks while len(buf) >= Cap
+	// HardCap keeps the capacity in force after the op budget is used up
+	// (scenarios that need a peer that really never drains).
+	HardCap bool
 
 	Written   int64 // bytes accepted from the writer
 	Delivered int64 // bytes handed to the reader
@@ -285,7 +288,7 @@ func (e *End) writable() bool {
 	if d.WErrAt >= 0 && d.Written >= d.WErrAt {
 		return true
 	}
-	return len(d.buf) < d.Cap || d.ops > d.OpBudget
+	return len(d.buf) < d.Cap || d.ops > d.OpBudget && !d.HardCap
 }
 
 func (e *End) Write(p []byte) (int, error) {
@@ -335,7 +338,7 @@ func (e *End) Write(p []byte) (int, error) {
 		}
 		space := d.Cap - len(d.buf)
 		d.ops++
-		if nopark || e.Fast || s.draining || d.ops > d.OpBudget {
+		if nopark || e.Fast || s.draining || d.ops > d.OpBudget && !d.HardCap {
 			space = len(p)
 		}
 		if space <= 0 {
